@@ -10,7 +10,9 @@ import (
 	"log/slog"
 	"math/rand/v2"
 	"os"
+	"runtime"
 	"sort"
+	"strconv"
 	"strings"
 	"sync"
 	"testing"
@@ -60,6 +62,8 @@ type Config struct {
 	Refresh    bool
 	Pruning    bool
 	Pacing     bool // instantaneous operations, no injected writes: waits are exact
+	CopySetter bool // SetObjectStatus returns a modified copy and leaves its argument alone (legal: the reconciler uses the returned object)
+	HoldLock   bool // some user transactions keep the table locked for a while of virtual time (needs the hook gate: one run at a time)
 	Extra      int  // further real reconcilers ("r3".."r6": own status slot, own target, own failures) on the same table
 	Keys       int
 	Phases     int
@@ -109,7 +113,13 @@ type sim struct {
 	model     map[uint64]uint64 // id -> payload of the latest user write (absent = deleted)
 	modelRev  map[uint64]uint64 // id -> revision of the latest user write
 	r2done    map[uint64]uint64 // id -> payload for which the second reconciler set Done
-	extra     []*extraRec // further real reconcilers
+	extra     []*extraRec       // further real reconcilers
+	gateMu    sync.Mutex
+	gate      chan struct{} // non-nil while a user transaction holds the table lock across virtual time
+	inflight  int           // goroutines between wtxn.beforeLock and wtxn.afterLock
+	mainGID   uint64
+	holds     int
+	bound     time.Duration
 	nextPay   uint64
 	seq       int64 // event sequence (under mu)
 	failProb  int   // percent
@@ -165,7 +175,19 @@ func setStatus(o *RObj, st reconciler.Status) *RObj {
 func (s *sim) userWrite(where string, rng *rand.Rand) {
 	id := uint64(1 + rng.IntN(s.cfg.Keys))
 	kind := rng.IntN(10)
+	hold := s.cfg.HoldLock && where == "main" && rng.IntN(3) == 0
+	if hold {
+		s.openGate()
+		defer s.closeGate()
+	}
 	w := s.db.WriteTxn(s.table)
+	if hold {
+		// everybody else who wants the table now waits at the gate (a channel: durably blocked, so virtual time moves on)
+		d := time.Duration(1+rng.IntN(400)) * time.Millisecond
+		s.logf("user %s: holds the table lock for %v", where, d)
+		time.Sleep(d)
+		s.holds++
+	}
 	cur, _, exists := s.table.Get(w, idIndex.Query(id))
 	switch {
 	case kind < 6 || !exists && kind < 8:
@@ -231,6 +253,71 @@ func (s *sim) userWrite(where string, rng *rand.Rand) {
 		w.Commit()
 		s.logf("user %s: status-only (r2 Done) id=%d payload=%d", where, id, cur.Payload)
 	}
+}
+
+// ---- gate: lets a user transaction keep the table lock across virtual time ----
+//
+// A goroutine blocked on a sync.Mutex is not durably blocked, so the bubble's clock would stand still while anybody waits for
+// the table lock held by a sleeping transaction. The hook at wtxn.beforeLock parks every other requester on a channel instead.
+
+func goid() uint64 {
+	var buf [64]byte
+	n := runtime.Stack(buf[:], false)
+	f := strings.Fields(string(buf[:n]))
+	if len(f) > 1 {
+		id, _ := strconv.ParseUint(f[1], 10, 64)
+		return id
+	}
+	return 0
+}
+
+func (s *sim) hook(point, handle string) {
+	switch point {
+	case "wtxn.beforeLock":
+		if goid() == s.mainGID {
+			return
+		}
+		for {
+			s.gateMu.Lock()
+			g := s.gate
+			if g == nil {
+				s.inflight++
+				s.gateMu.Unlock()
+				return
+			}
+			s.gateMu.Unlock()
+			<-g
+		}
+	case "wtxn.afterLock":
+		if goid() == s.mainGID {
+			return
+		}
+		s.gateMu.Lock()
+		s.inflight--
+		s.gateMu.Unlock()
+	}
+}
+
+func (s *sim) openGate() {
+	s.gateMu.Lock()
+	s.gate = make(chan struct{})
+	s.gateMu.Unlock()
+	for {
+		s.gateMu.Lock()
+		n := s.inflight
+		s.gateMu.Unlock()
+		if n == 0 {
+			return
+		}
+		runtime.Gosched()
+	}
+}
+
+func (s *sim) closeGate() {
+	s.gateMu.Lock()
+	close(s.gate)
+	s.gate = nil
+	s.gateMu.Unlock()
 }
 
 // ---- operations (simulated target) ----
@@ -625,7 +712,13 @@ func (s *sim) convergenceCheck(what string) {
 	for o := range s.table.All(rt) {
 		k := getStatus(o).Kind
 		if k == reconciler.StatusKindRefreshing && s.cfg.Refresh {
-			continue // periodic refresh in progress (the reconciler itself marked the reconciled object for refresh)
+			// periodic refresh in progress (the reconciler itself marked the reconciled object for refresh) - but a marked object
+			// is updated within the same bound: nothing fails any more
+			if age := time.Since(getStatus(o).UpdatedAt); age > s.bound {
+				s.violate("conv", "refreshing-stuck", "%s: object id=%d payload=%d was marked Refreshing %v ago and has not been updated since (bound %v)", what, o.ID, o.Payload, age, s.bound)
+				return
+			}
+			continue
 		}
 		if k != reconciler.StatusKindDone {
 			s.violate("conv", "not-done", "%s: object id=%d payload=%d has status %s after failures and changes stopped and the bound elapsed", what, o.ID, o.Payload, k)
@@ -792,7 +885,11 @@ func Run(t *testing.T, r *vkit.Run, idx int, cfg Config) {
 			}),
 			cell.Module("test", "test",
 				cell.Invoke(func(p reconciler.Params) (err error) {
-					s.rec, err = reconciler.Register(p, s.table, (*RObj).Clone, setStatus, getStatus, o, bops, opts...)
+					set := setStatus
+					if cfg.CopySetter {
+						set = func(o *RObj, st reconciler.Status) *RObj { return setStatus(o.Clone(), st) }
+					}
+					s.rec, err = reconciler.Register(p, s.table, (*RObj).Clone, set, getStatus, o, bops, opts...)
 					return err
 				}),
 			),
@@ -819,6 +916,11 @@ func Run(t *testing.T, r *vkit.Run, idx int, cfg Config) {
 				t.Errorf("hive stop: %v", err)
 			}
 		}()
+		if cfg.HoldLock {
+			s.mainGID = goid()
+			statedb.SetVerifHook(s.hook)
+			defer statedb.SetVerifHook(nil)
+		}
 		s.logf("config %+v", cfg)
 		initAtPhase := s.rng.IntN(cfg.Phases + 1)
 		var waiters sync.WaitGroup
@@ -919,6 +1021,7 @@ func Run(t *testing.T, r *vkit.Run, idx int, cfg Config) {
 		s.logf("failures and changes stopped")
 		// bounded convergence: two maximal backoffs plus one round per object (limiter interval + longest operation) plus slack
 		bound := 2*cfg.BackoffMax + time.Duration(cfg.Keys+5)*(time.Duration(cfg.LimiterMS)*time.Millisecond+35*time.Millisecond) + time.Second
+		s.bound = bound
 		time.Sleep(bound)
 		synctest.Wait()
 		if !s.failed {
@@ -949,6 +1052,7 @@ func Run(t *testing.T, r *vkit.Run, idx int, cfg Config) {
 			r.Count("other_reconcilers_attempts", int64(len(x.attempts)))
 		}
 		r.Max("reconcilers_on_one_table", int64(2+len(s.extra)))
+		r.Count("user_transactions_holding_the_lock", int64(s.holds))
 		r.Count("operation_attempts", int64(len(s.attempts)))
 		r.Count("failed_attempts", int64(nfail))
 		r.Count("user_writes", int64(len(s.writes)))
@@ -988,6 +1092,7 @@ func RandomConfig(rng *rand.Rand, pacing bool) Config {
 	if !pacing && rng.IntN(3) == 0 {
 		c.Extra = 1 + rng.IntN(4)
 	}
+	c.CopySetter = rng.IntN(3) == 0
 	if pacing {
 		c.LimiterMS = 0
 		c.Refresh = false
